@@ -35,7 +35,7 @@ DESCRIBE = {
                     "the mixing matrix is re-derived with the documented Householder construction", "joint model: feature columns only (the event column is not part of C09)"],
 }
 KINDS = ["logistic_scalar", "logistic_diag", "logistic_diag_nosrc", "logistic_uni", "logistic_binary", "linear_diag", "linear_scalar", "linear_uni",
-         "shared_speed", "shared_speed_nosrc", "joint_uni", "joint_multi"]
+         "shared_speed", "shared_speed_nosrc", "joint_uni", "joint_multi", "joint_ev2"]
 
 
 def make_plan(seed: int, tier: str) -> dict:
